@@ -2,6 +2,7 @@ SPECIFICATION Spec
 CONSTANTS
   MaxFiles = 1
   MaxMembers = 3
+  MaxPfx = 2
   WithCase = TRUE
 INVARIANT WalkAll
 INVARIANT WalkedLookupable
